@@ -300,6 +300,43 @@ Section Inv.
     specialize (Hc k). destruct (status s k); rewrite Hc; split; try lia; split; intros; try lia; congruence.
   Qed.
 
+  (** ---- 4b. the pinger ---- *)
+
+  Lemma pinger_step s l s' : step s l = Some s' -> pinger s' = pinger s.
+  Proof. intros Hs. step_inv Hs; reflexivity. Qed.
+
+  (** the pinger of a connection is never lost: not by failed sends, not by reconnects *)
+  Theorem pinger_alive s k : reachable init_state s -> pinger s k = true.
+  Proof.
+    induction 1 as [|s l s' _ IH Hs]; [reflexivity|]. rewrite (pinger_step _ _ _ Hs). exact IH.
+  Qed.
+
+  Definition ping_label (k : nat) (l : label) : Prop :=
+    l = LPingOk k \/ l = LPingSkip k \/ l = LPingFail k.
+
+  (** ... and it is always enabled: on a Connected connection it writes its ping *)
+  Theorem pinger_enabled s k :
+    reachable init_state s ->
+    (exists l, ping_label k l /\ step s l <> None) /\
+    (status s k = true -> step s (LPingOk k) <> None).
+  Proof.
+    intros Hr. pose proof (pinger_alive s k Hr) as Hp. unfold ping_label, step. rewrite Hp. cbn [andb].
+    destruct (status s k) eqn:Hst; split; try discriminate.
+    - exists (LPingOk k). rewrite Hp, Hst. split; [auto|discriminate].
+    - exists (LPingSkip k). rewrite Hp, Hst. split; [auto|discriminate].
+  Qed.
+
+  (** time does not run past the pinger's deadline without a ping *)
+  Theorem psince_bounded s k : reachable init_state s -> psince s k <= ping_ticks.
+  Proof.
+    induction 1 as [|s l s' Hr IH Hs]; [cbn; lia|].
+    pose proof (pinger_alive s k Hr) as Hp.
+    step_inv Hs; sred; try assumption.
+    all: unfold cupd; destruct (Nat.eqb_spec k k0); subst; try assumption; try lia.
+    rewrite Hp in *. cbn [negb orb] in *.
+    match goal with H : Nat.ltb _ _ = true |- _ => apply Nat.ltb_lt in H; lia end.
+  Qed.
+
   (** after a drop, the path ping failure -> reconnect -> done is enabled and
       re-establishes the connection (that it is eventually taken is a fairness
       assumption, not a safety theorem) *)
@@ -313,8 +350,9 @@ Section Inv.
     { destruct (loops s k) as [|[|n]] eqn:E; [reflexivity| |].
       - destruct Hl as [Hl _]. specialize (Hl eq_refl). congruence.
       - destruct (single_reconnect s k Hr) as [Hle _]. lia. }
+    pose proof (pinger_alive s k Hr) as Hp.
     cbn [exec]. unfold step at 1. rewrite Hst, Hbr. cbn [andb negb].
-    unfold step at 1. sred. rewrite !cupd_same, Hst. cbn [andb].
+    unfold step at 1. sred. rewrite !cupd_same, Hst, Hp. cbn [andb].
     unfold step at 1. sred. rewrite !cupd_same, Hst.
     unfold step at 1. sred. rewrite !cupd_same.
     eexists. split; [reflexivity|]. sred. rewrite !cupd_same. rewrite Hl0. auto.
@@ -368,7 +406,8 @@ Section Inv.
       assert (Hst1 : status s1 k = false).
       { destruct (Hall l (or_introl eq_refl)) as [->|[j ->]]; unfold step in E.
         - destruct (loops s k); [discriminate|]. injection E as <-. exact Hst.
-        - injection E as <-. exact Hst. }
+        - destruct (negb (pinger s j) || Nat.ltb (psince s j) ping_ticks); [|discriminate].
+          injection E as <-. exact Hst. }
       exact (IH _ _ _ Hr1 Hst1 (fun l' Hl' => Hall l' (or_intror Hl')) H).
   Qed.
 
